@@ -1398,6 +1398,22 @@ func (c *c16case) refFiles() map[string]string {
 	return m
 }
 
+// relInGopath: some package below GOPATH/src has a relative import (cmd/go refuses that).
+func (c *c16case) relInGopath() bool {
+	gs := c16Split(c16Gsrc)
+	for _, p := range c.Pkgs {
+		if !c16HasPrefix(gs, c16Split(p.Dir)) {
+			continue
+		}
+		for _, ip := range p.Imports {
+			if c16IsRel(c16Split(ip)) {
+				return true
+			}
+		}
+	}
+	return false
+}
+
 // gOracle is the specification loader G (Imports/Model.v g_load) on the program: the fallback
 // reference when the toolchain refuses a layout; the Coq side compares it with G again.
 func (c *c16case) gOracle() c16out {
@@ -1724,7 +1740,7 @@ func c16Run(c *c16case) (impl c16evalRes, ref c16out, err error) {
 	impl.Disk = child("disk")
 	impl.MapFS = child("mapfs")
 	groot := root
-	if c.Contract == "spec" {
+	if c.relInGopath() {
 		// the toolchain gets the variant without relative imports inside GOPATH, in a tree of its own
 		groot = filepath.Join(top, "g")
 		for name, src := range c.refFiles() {
